@@ -105,6 +105,36 @@ Theorem C06_live_list_is_live : forall es x, In x (live_list es) <-> live es x.
 Proof. exact live_list_spec. Qed.
 Print Assumptions C06_live_list_is_live.
 
+(** the merge test of the oracle decides the merge statement of [query_spec]
+    (duplicate-free candidate lists, non-negative limits), whether or not the
+    outer limit cuts the merged answer *)
+Theorem C06_union_topn_ok_spec : forall cands, cands_ok cands -> forall outer out,
+  (union_topn_ok cands outer out = true <-> union_spec cands outer out).
+Proof. exact union_topn_ok_spec. Qed.
+Print Assumptions C06_union_topn_ok_spec.
+
+(** hence the oracle applied to every observed answer decides the property's
+    statement: it never accepts an answer the property forbids and never
+    rejects one it allows *)
+Theorem C06_oracle_exact : forall es fs maxLimit out,
+  Forall (fun f => gate_valid_filter f = true) fs -> 0 <= maxLimit ->
+  (query_specb es fs maxLimit out = true <-> query_spec es fs maxLimit out).
+Proof. exact oracle_exact. Qed.
+Print Assumptions C06_oracle_exact.
+
+(** and it accepts the model's answer under the hypotheses of
+    [C06_query_correct], for every history and every filter list *)
+Theorem C06_model_satisfies_oracle :
+  forall (xx : Z -> str -> Z) (md5 : str -> str) seed (h : list (list event)) fs maxLimit,
+  no_collision xx md5 seed (concat h) fs ->
+  gate_valid (concat h) -> ids_functional (concat h) ->
+  e_refs_canonical (concat h) = true -> a_refs_scoped (concat h) = true ->
+  fs <> [] -> Forall (fun f => gate_valid_filter f = true) fs -> 0 < maxLimit <= NoLimit ->
+  exists out, query (run seed empty_db h) fs maxLimit = Some out /\
+              query_specb (concat h) fs maxLimit out = true.
+Proof. exact model_satisfies_oracle. Qed.
+Print Assumptions C06_model_satisfies_oracle.
+
 (** text pinning: the SQL the model was written for is the SQL in /repo *)
 Theorem C06_sql_text_insert_events : g_sql_text_insert_events = pinned_insert_events.
 Proof. exact sql_text_pinned_insert_events. Qed.
